@@ -417,6 +417,14 @@ def _publish(repo, rep):
               "thread arriving while the first compiles must not render "
               "with missing entry points)", construct="no-return-uncooked",
               where=L.where(cc), detail=detail)
+    from .c16 import flag_down_before_stamp
+    oks, n_, detail = flag_down_before_stamp(repo)
+    rep.check(oks, "R14.4", cc.qualname, "cook_check lowers the compiled "
+              "flag before it remembers the new modification time (a thread "
+              "arriving between the two stores must not see 'unchanged and "
+              "compiled' for a changed file)",
+              construct="flag-down-before-stamp", where=L.where(cc),
+              detail=detail or "%d store(s)" % n_)
     # a published entry point is never taken away again: removals come
     # after the publication and spare the names just published (another
     # thread may already be rendering through them)
